@@ -29,6 +29,7 @@ RULE = (
     "equals the oracle's complete optimal set, again after the unit costs of the same input object were changed in place and after one of its leaves was moved to another species in place; ANY returns exactly one solution, member of that set; every returned solution valid with cost == "
     "optimum; empty iff the oracle has no solution.  Non-trivial: the optimal set has >=2 members (ties) and the object tree >=3 leaves; "
     "distinct by SHA-1 of the case."
+    '  Also: deep chains (6..7 leaves) with complete sets from the recursion oracle, 5-family inputs with 30..120 root orders, misleading leaf names, huge unit costs; one random case in eight is also run through `superrec2 reconcile --solutions all|any` (default-valued options omitted, decoy costs in the file): the written set must be the oracle set / one member of it and the printed minimum the optimum.'
 )
 ASSUMPTIONS = [
     "costs inside the coherent region",
